@@ -2193,9 +2193,14 @@ def preprocess_file(
 
         # The body becomes a replacement template: keep its backslashes literal
         sub = sub.replace("\\", r"\\")
-        for i, arg in enumerate(def_args, start=1):
-            if arg.strip():
-                sub = re.sub(rf"\b({arg.strip()})\b", rf"\\g<{i}>", sub)
+        # Replace the parameters in one pass: the group references inserted for one
+        # parameter must not be taken for another parameter (`g`, `1`)
+        groups = {arg.strip(): i for i, arg in enumerate(def_args, start=1)}
+        sub = re.sub(
+            r"\b[A-Za-z_]\w*\b",
+            lambda m: rf"\g<{groups[m[0]]}>" if m[0] in groups else m[0],
+            sub,
+        )
 
         return regex, sub
 
